@@ -433,6 +433,14 @@ def variants(prog: Program, r, tier, ranges, stats):
                 p2.subs[0].name = r.choice(NAMES_NL)
                 names[0] = p2.subs[0].name
             out.append(Variant("rename", p2, {"names": names}, has_nl_name=any("\n" in x for x in names)))
+        if len(prog.subs) >= 2:
+            # several routines sharing ONE name (two lambdas, closures of one factory, equal name= overrides): a name is an
+            # annotation, it must not decide which routine a call reaches
+            p2 = clone(prog)
+            nm = r.choice(NAMES_PLAIN + [p2.subs[0].name])
+            for s in p2.subs:
+                s.name = nm
+            out.append(Variant("rename", p2, {"names": [nm] * len(p2.subs), "duplicate": True}, has_nl_name="\n" in nm))
     for v in out:
         stats["variant:" + v.kind] += 1
     return out
